@@ -14,6 +14,7 @@ EXTENDS Persist, VerifEmit
 ASSUME EmitReset
 genview == <<U, disk, tx, mem, op, pend, faults, last, prov>>
 Behaviour == [steps |-> hist, changes |-> [i \in Ids |-> ChangeProj(i)], nt |-> NT]
-JustFinished == Idle /\ hist # <<>> /\ hist[Len(hist)].a = "op"
+\* (not in the middle of an AddRawRecords call: its records are one call of the code)
+JustFinished == Idle /\ hist # <<>> /\ hist[Len(hist)].a = "op" /\ ~pend.cont
 Emit == EmitWhen(JustFinished, Behaviour)
 =============================================================================
